@@ -19,7 +19,67 @@ def _no_random_suffix():
 
 class Ctx:
     """everything an oracle may want to look at after a run"""
-    pass
+
+    def __init__(self):
+        self.at_done = []        # what was wrong at the instant the transfer's done event was set (see DoneProbe)
+        self.nsubmits = 1
+        CURRENT[0] = self
+
+
+CURRENT = [None]
+
+
+class DoneProbe:
+    """stands in for TransferCoordinator._done_event: the instant it is set is the instant result() unblocks, i.e. the
+    instant "the future is done" for a waiting caller.  Properties that speak about that instant (C05: the upload is
+    finished or aborted BY THEN; C06: no temporary file remains) are judged there, not only at quiescence."""
+
+    def __init__(self, ev, coord):
+        self._ev = ev
+        self._coord = coord
+
+    def set(self):
+        if not self._ev.is_set():
+            c = CURRENT[0]
+            if c is not None and getattr(self._coord, 'transfer_id', None) == 0 and hasattr(c, 's3'):
+                _at_done(c, self._coord)
+        self._ev.set()
+
+    def __getattr__(self, name):
+        return getattr(self._ev, name)
+
+
+def _at_done(c, coord):
+    ok = coord._status == 'success'
+    for uid, u in c.s3.uploads.items():
+        if u.get('returned') and u['inflight'] > 0:
+            c.at_done.append('c05: the future became done while a request for its multipart upload was in flight')
+            break
+    r = c.s3.check_multipart_lifecycle(ok)
+    if r:
+        c.at_done.append('c05: when the future became done: ' + r)
+    fs = getattr(c, 'fs', None)
+    if fs is not None and getattr(c, 'transfer', '') == 'down-path':
+        if set(fs.files) - {DEST}:
+            c.at_done.append('c06: temporary file still present when the future became done')
+
+
+def _install_probe():
+    import s3transfer.futures as FU
+    if getattr(FU.TransferCoordinator, '_verif_probe', False):
+        return
+    orig = FU.TransferCoordinator.__init__
+
+    def __init__(self, *a, **kw):
+        orig(self, *a, **kw)
+        ev = getattr(self, '_done_event', None)
+        if ev is not None:
+            self._done_event = DoneProbe(ev, self)
+    FU.TransferCoordinator.__init__ = __init__
+    FU.TransferCoordinator._verif_probe = True
+
+
+_install_probe()
 
 
 def manager(s3, cfg, osutil=None, executor_cls=NonThreadedExecutor):
@@ -43,6 +103,7 @@ def run_download(kind, size, thr, chunk, io, nd=(), stream_faults=(), attempts=3
                  executor_cls=NonThreadedExecutor, extra_args=None, cfg_kw=None, before_wait=None, fault_at2=-1):
     """one download through the real TransferManager; kind in seekable|stream|path|special"""
     c = Ctx()
+    c.transfer = 'down-' + kind
     env = c.env = F.Env(fault_at, fault_phase, F.Nondet(nd), faultable, fault_at2=fault_at2)
     s3 = c.s3 = F.FakeS3(env, size=size, short_reads=short_reads, stream_faults=stream_faults)
     kw = dict(multipart_threshold=thr, multipart_chunksize=chunk, io_chunksize=io, num_download_attempts=attempts)
